@@ -1710,7 +1710,8 @@ class _NP(object):
             return f(*full)
         if not shape:
             # numpy gives a 0-d ARRAY: an object with identity, so that `v = np.squeeze(a); v /= 2` changes every alias of v; every other use unwraps it
-            return Arr((), lambda: fn(), a.dtype)
+            v0 = fn()          # evaluated now (operation time: same side obligations and errstate context as any other numpy call), kept in an object with identity
+            return Arr((), lambda v0=v0: v0, a.dtype)
         return Arr(shape, fn, a.dtype)
 
     def expand_dims(self, a, axis):
